@@ -12,6 +12,8 @@
 (*   Script = "refetch"  Fetch(d) ; Round ; Prep ; Fetch(d2) ; X(v) ; Round ; Prep: the ordinary round  *)
 (*                       is right, then the epoch's install, another entry point, and the round again  *)
 (*                       (fetch, unblind, round is X = unblind)                                      *)
+(*                       (the rounds: the registration job or its sibling, the exported                *)
+(*                       SubmitValidatorRegistrations handed the listed accounts - RoundVias)           *)
 (*   Script = "none"     simulated histories of ScenLen steps over every action of the module          *)
 EXTENDS BlockRelayResolve, Json
 
@@ -37,7 +39,7 @@ H(e) == hist' = Append(hist, e)
 Fet(d) == [ev |-> "Fetch", out |-> "good", doc |-> d]
 Call(kind, v) == [ev |-> "Call", kind |-> kind, v |-> v]
 Act(v, route) == [ev |-> "Act", v |-> v, route |-> route]
-Rnd == [ev |-> "Round"]
+Rnd(via) == [ev |-> "Round", via |-> via]
 Prp == [ev |-> "Prep"]
 
 Ended == Len(hist) > 1 /\ hist[Len(hist)].ev = "End"
@@ -46,30 +48,30 @@ EndStep == Len(hist) >= ScenLen + 1 /\ ~Ended /\ H([ev |-> "End"]) /\ UNCHANGED 
 Others == {"fwd", "unblind", "auction", "bid"}
 RouteOf(s) == IF s = "pending" THEN "epoch" ELSE "import"
 
-PoisonHist(d, v, x, s0, roundFirst) ==
+PoisonHist(d, v, x, s0, roundFirst, via) ==
     <<Fet(d), Call(x, v)>>
     \o (IF s0 = "active" THEN <<>> ELSE <<Act(v, RouteOf(s0))>>)
-    \o (IF roundFirst THEN <<Rnd, Prp>> ELSE <<Prp, Rnd>>)
+    \o (IF roundFirst THEN <<Rnd(via), Prp>> ELSE <<Prp, Rnd(via)>>)
 
-RefetchHist(d, d2, v, x) == <<Fet(d), Rnd, Prp, Fet(d2), Call(x, v), Rnd, Prp>>
+RefetchHist(d, d2, v, x, via) == <<Fet(d), Rnd("job"), Prp, Fet(d2), Call(x, v), Rnd(via), Prp>>
 
 \* scripted families: the whole history in one step (the initial state is part of it: Reset is rewritten)
 ScriptStep ==
     /\ Len(hist) = 1
     /\ \/ /\ Script = "poison"
-          /\ \E d \in DocIds, v \in Vals, x \in Others \cap Kinds, s0 \in States, rf \in BOOLEAN :
+          /\ \E d \in DocIds, v \in Vals, x \in Others \cap Kinds, s0 \in States, rf \in BOOLEAN, via \in RoundVias :
                 /\ s0 # "active" => RouteOf(s0) \in Routes
-                /\ hist' = <<ResetEv(0, [w \in Vals |-> IF w = v THEN s0 ELSE "active"])>> \o PoisonHist(d, v, x, s0, rf)
+                /\ hist' = <<ResetEv(0, [w \in Vals |-> IF w = v THEN s0 ELSE "active"])>> \o PoisonHist(d, v, x, s0, rf, via)
        \/ /\ Script = "refetch"
-          /\ \E d \in DocIds, d2 \in DocIds, v \in Vals, x \in Others \cap Kinds :
-                hist' = <<ResetEv(0, [w \in Vals |-> "active"])>> \o RefetchHist(d, d2, v, x)
+          /\ \E d \in DocIds, d2 \in DocIds, v \in Vals, x \in Others \cap Kinds, via \in RoundVias :
+                hist' = <<ResetEv(0, [w \in Vals |-> "active"])>> \o RefetchHist(d, d2, v, x, via)
     /\ UNCHANGED vars
 
 SimStep ==
     \/ \E d \in DocIds : DoFetch(d) /\ H(Fet(d))
     \/ FetchFails /\ H([ev |-> "Fetch", out |-> "error", doc |-> 0])
     \/ \E v \in Vals, route \in Routes : Activate(v, route) /\ H(Act(v, route))
-    \/ DoRound /\ H(Rnd)
+    \/ \E via \in RoundVias : DoRound(via) /\ H(Rnd(via))
     \/ DoPrep /\ H(Prp)
     \/ \E v \in Vals : \/ DoFwd(v) /\ H(Call("fwd", v))
                        \/ DoUnblind(v) /\ H(Call("unblind", v))
